@@ -15,6 +15,7 @@ package checks
 // "server-survives|panic-outside-recover-*" instead of sending the request.
 
 import (
+	"encoding"
 	"bytes"
 	"encoding/json"
 	"fmt"
@@ -394,7 +395,26 @@ func (s *c18Server) wrongArg(t reflect.Type) string {
 	if t.Kind() == reflect.String {
 		return []string{`5`, `{}`, `[]`, `true`}[tp.Choose(4)]
 	}
-	return []string{`5`, `"z1qqqq"`, `"not-a-value"`, `{}`, `[[]]`, `true`, `""`, `"` + strings.Repeat("f", 63) + `"`, `"z1` + strings.Repeat("q", 80) + `"`}[tp.Choose(9)]
+	wrong := []string{`5`, `"z1qqqq"`, `"not-a-value"`, `{}`, `[[]]`, `true`, `""`, `"` + strings.Repeat("f", 63) + `"`, `"z1` + strings.Repeat("q", 80) + `"`}
+	v := wrong[tp.Choose(9)]
+	// an empty object IS a value of a plain struct or map parameter (every field optional): not a wrong type
+	// there (false alarm corrected: embedded.plasma.getRequiredPoWForAccountBlock[{}] legitimately answers)
+	if v == `{}` && c18PlainObject(t) {
+		v = `5`
+	}
+	return v
+}
+
+func c18PlainObject(t reflect.Type) bool {
+	if t.Kind() == reflect.Ptr {
+		t = t.Elem()
+	}
+	if t.Kind() != reflect.Struct && t.Kind() != reflect.Map {
+		return false
+	}
+	ju := reflect.TypeOf((*json.Unmarshaler)(nil)).Elem()
+	tu := reflect.TypeOf((*encoding.TextUnmarshaler)(nil)).Elem()
+	return !t.Implements(ju) && !reflect.PtrTo(t).Implements(ju) && !t.Implements(tu) && !reflect.PtrTo(t).Implements(tu)
 }
 
 // ---- the phase
